@@ -176,8 +176,15 @@ func (s *Scanner) Length() uint {
 		if lex.Type() == lexeme.EndTop {
 			// Found character after the end of the schema and spaces.
 			// Example: char "s" in "{} some text"
-			length = uint(lex.End()) - 1
+			// The length is already known from the last lexeme of the schema.
 			break
+		}
+
+		if lex.Type() == lexeme.NewLine {
+			// A line end is not a part of the schema by itself: trailing blanks
+			// are cut off below anyway. Counting it would make the length depend
+			// on whether a trailing user comment is followed by a line end.
+			continue
 		}
 
 		length = uint(lex.End()) + 1
